@@ -212,7 +212,11 @@ func (w *walker) calls(n ast.Node) []string {
 				}
 			}
 		}
-		set[w.calleeName(c.Fun)] = true
+		name := w.calleeName(c.Fun)
+		if strings.Contains(name, ".Logger") || strings.HasPrefix(name, "log.") {
+			return true // logging is not an effect on consensus state
+		}
+		set[name] = true
 		return true
 	})
 	var out []string
